@@ -26,6 +26,12 @@ Proof. reflexivity. Qed.
 Lemma read_add_copies : read_add_copies_its_argument = true.
 Proof. reflexivity. Qed.
 
+(* node.tick ticks every request table on every path (quiesced or not, no early return):
+   the model's [Tick t] step - all table clocks set to t - is what a tick of the node does,
+   and the clock the deadline / gc theorems speak about cannot freeze while the node is ticked *)
+Lemma node_tick_ticks_tables : node_tick_advances_all_tables = true.
+Proof. reflexivity. Qed.
+
 (* every table method the model treats as ONE step is one critical section
    (Lock; defer Unlock at the top) in the source *)
 Definition modelled_atomic : list string :=
